@@ -65,7 +65,9 @@ namespace gtry {
 	}
 
 	UInt abs(const std::same_as<SInt> auto &v) { 
-		UInt res = (UInt) v;
+		// The magnitude is unsigned: it must be zero extended when it is later combined with a wider operand. A plain cast would
+		// inherit the sign expansion policy of literals and sext() results and sign extend the magnitude 100..0 of the most negative value.
+		UInt res = zext((UInt) v);
 		IF (v.sign())
 			res = ~ (UInt)v + 1;
 		return res;
